@@ -136,4 +136,6 @@ type Trace struct {
 	Completed bool    `json:"completed"` // the driver script ran to its end
 	APIAddr   string  `json:"apiAddr,omitempty"`
 	Note      string  `json:"note,omitempty"`
+	TimeoutMs int64   `json:"timeoutMs,omitempty"`
+	MaxLagMs  float64 `json:"maxLagMs,omitempty"` // worst wake-up lag of a 1 ms sleep inside the host (machine load indicator)
 }
